@@ -641,7 +641,8 @@ def _make_eq(cls: t.Type[PaneBase], fields: t.Sequence[Field]):
 def _make_ord(cls: t.Type[PaneBase], fields: t.Sequence[Field]):
     #ord_fields = list(filter(lambda f: f.ord, fields))
     def _pane_ord(self: PaneBase, other: t.Any) -> t.Literal[-1, 0, 1]:
-        if self.__class__ != other.__class__:
+        # same class, modulo type variables (as for `__eq__`: `Cls[int](1) == Cls[Any](1)`, so they must be ordered too)
+        if self.__class__.__dict__.get('__origin__', self.__class__) != other.__class__.__dict__.get('__origin__', other.__class__):
             return NotImplemented  # type: ignore
         for f in fields:
             if not f.compare:
